@@ -100,7 +100,7 @@ func refLowerASCII(c byte) byte {
 }
 
 var c11StrFuncs = []string{"len", "reverse", "at", "first", "last", "truncate", "capitalize", "upper", "lower",
-	"trim", "trimLeft", "trimRight", "contains", "split", "repeat"}
+	"trim", "trimLeft", "trimRight", "contains", "split", "repeat", "decimal"}
 
 // HarnessC11Str: contracts of the string built-ins on receivers of <= L symbolic bytes (valid UTF-8), with every
 // integer argument ranging over all of int64.
@@ -238,6 +238,29 @@ func HarnessC11Str() {
 			want += s
 		}
 		vAssert(vEqStr(out, want), "repeat-concatenates-copies")
+	case "decimal":
+		// a string that spells an integer (optional sign, then digits) gains ".00"; any other string is returned as it is
+		res, err := hCall(T, name, recv)
+		out = hStrResult(res, err, "decimal")
+		isStr = true
+		isInt := len(s) > 0
+		start := 0
+		if len(s) > 0 && (s[0] == '+' || s[0] == '-') {
+			start = 1
+		}
+		if start == len(s) {
+			isInt = false
+		}
+		for i := start; i < len(s); i++ {
+			if s[i] < '0' || s[i] > '9' {
+				isInt = false
+			}
+		}
+		if isInt {
+			vAssert(vEqStr(out, s+".00"), "decimal-appends-two-decimals-to-an-integer-string")
+		} else {
+			vAssert(vEqStr(out, s), "decimal-leaves-a-non-integer-string-unchanged")
+		}
 	}
 	vCover("checked")
 	// purity and UTF-8 preservation
